@@ -28,6 +28,8 @@
 //!                      `let g = d.by_ref().await; record(*g); release.await; drop(g)`
 //!   hold               the harness itself takes a `read_untracked()` guard and keeps it
 //!   release            every guard is given back (the harness drops its own, every holder's release is sent)
+//!   pause / resume     `Owner::pause()` / `Owner::resume()` on the owner the derived was created under (after its first run)
+//!   cfg effect kinds `dp` / `dq`: the subscriber PEEKS: polls `by_ref()` / `.await` once with `now_or_never()` and drops it
 //!   cfg kind `k~chain`: the handle under test is obtained from the constructed one by conversions: `a` = `.into()` the
 //!                      `Arc…` type, `r` = `.into()` the arena type, `c` = `.clone()` (e.g. `local-arc~r`, `res~ar`, `arena~ac`)
 //!   a 6th cfg field (plain kinds, `sig` only) gives the fetcher's reads as `<body>/<pre>/<post>`, each `-` or a
@@ -105,6 +107,8 @@ struct Shared {
     /// awaiters under the boundary whose reader was disposed before they resumed
     aw_aborted: Vec<bool>,
     /// read guards on the value held by holder tasks right now; the release channel of every holder
+    /// what a SYNCHRONOUS observer (an `ImmediateEffect` reading `.get()`) saw at its last run
+    imm_last: Option<Option<u32>>,
     holder_guards: usize,
     releases: Vec<Option<oneshot::Sender<()>>>,
     elog: Vec<(Option<u32>, Option<u32>)>,
@@ -286,6 +290,9 @@ enum EffKind {
     D,
     DM,
     MD,
+    /// a dependent that PEEKS: polls `by_ref()` / `.await` once with `now_or_never()` and drops the future
+    DP,
+    DQ,
 }
 
 #[derive(Clone)]
@@ -402,6 +409,23 @@ impl Dv {
             Dv::RR(d) => d.ready().now_or_never().is_none(),
             Dv::OA(d) => d.ready().now_or_never().is_none(),
             Dv::OR(d) => d.ready().now_or_never().is_none(),
+        }
+    }
+    /// poll `by_ref()` (or `.await`) once and drop the future: what a `select` / timeout race / `now_or_never` does
+    fn peek(&self, by_ref: bool) -> Option<u32> {
+        use std::future::IntoFuture;
+        match (self, by_ref) {
+            (Dv::A(d), true) => d.by_ref().now_or_never().map(|g| *g),
+            (Dv::R(d), true) => d.by_ref().now_or_never().map(|g| *g),
+            (Dv::L(d), true) => d.by_ref().now_or_never().map(|g| *g),
+            (Dv::RA(d), true) => d.by_ref().now_or_never().map(|g| *g),
+            (Dv::RR(d), true) => d.by_ref().now_or_never().map(|g| *g),
+            (Dv::A(d), false) => d.clone().into_future().now_or_never(),
+            (Dv::R(d), false) => (*d).into_future().now_or_never(),
+            (Dv::L(d), false) => (*d).into_future().now_or_never(),
+            (Dv::RA(d), false) => d.clone().into_future().now_or_never(),
+            (Dv::RR(d), false) => (*d).into_future().now_or_never(),
+            _ => unreachable!(),
         }
     }
     /// one conversion step: `a` into the `Arc…` type, `r` into the arena type, `c` clone
@@ -555,6 +579,11 @@ struct Live {
     sync_guards: Vec<Box<dyn std::any::Any>>,
     used_guards: bool,
     used_mset: bool,
+    /// `pause` was used in this case; the owner is paused now; a source write / refetch was made while it was and none since
+    imm: Option<reactive_graph::effect::ImmediateEffect>,
+    used_pause: bool,
+    paused: bool,
+    missed_while_paused: bool,
     /// tasks spawned by synchronous reads under the boundary that have not been polled with loading off yet:
     /// each holds a task handle of the boundary until then, whatever becomes of its reader
     live_readers: usize,
@@ -600,6 +629,10 @@ impl Live {
             sync_guards: vec![],
             used_guards: false,
             used_mset: false,
+            imm: None,
+            used_pause: false,
+            paused: false,
+            missed_while_paused: false,
             live_readers: 0,
         }
     }
@@ -608,6 +641,7 @@ impl Live {
             return;
         }
         self.torn = true;
+        self.imm = None;
         self.sync_guards.clear();
         self.sh.lock().unwrap().releases.clear();
         sched::reset();
@@ -677,6 +711,7 @@ impl Live {
             Effect::new(move |_| {
                 let rec = match eff {
                     EffKind::D => (d.get(), None),
+                    EffKind::DP | EffKind::DQ => (d.peek(eff == EffKind::DP), None),
                     EffKind::DM => {
                         let a = d.get();
                         let b = memo.get();
@@ -692,6 +727,17 @@ impl Live {
                 sh.lock().unwrap().elog.push(rec);
             });
         }
+        if kind.is_once() {
+            // a synchronous observer: it runs INSIDE the notification of the completion; what it reads there must be
+            // the loaded value (it is never told again)
+            let d = dv.clone();
+            let sh = self.sh.clone();
+            self.imm = Some(reactive_graph::effect::ImmediateEffect::new(move || {
+                let v = d.get();
+                sh.lock().unwrap().imm_last = Some(v);
+            }));
+            self.tags.insert("synchronous-observer");
+        }
         self.aw_base = sched::task_count();
         self.dv = Some(dv);
         if self.cur_src.len() >= 2 {
@@ -705,6 +751,8 @@ impl Live {
             EffKind::D => "effect-d",
             EffKind::DM => "effect-dm",
             EffKind::MD => "effect-md",
+            EffKind::DP => "effect-peeks-by-ref",
+            EffKind::DQ => "effect-peeks-await",
         });
     }
 
@@ -713,6 +761,10 @@ impl Live {
         let Some(id) = polled else { return };
         if id == self.d_id() && self.first_poll_d.is_none() {
             self.first_poll_d = Some(clock);
+        }
+        if id == self.d_id() && self.paused {
+            // the task consumes its notification without looking at its sources
+            self.missed_while_paused = true;
         }
         if id >= self.aw_base + self.saw_dropped_upto && self.spawned.get(id - self.aw_base) == Some(&'s') {
             self.saw_poll_at.push(clock);
@@ -859,11 +911,16 @@ impl Live {
             "ok"
         } else if ld {
             "fail loading-stuck"
+        } else if val != expected && self.missed_while_paused {
+            // a paused owner's derived looks at its sources again only when it is notified again
+            "ok"
         } else if val != expected {
             self.saw_stale = true;
             "fail stale"
         } else if g.aw.iter().zip(&g.aw_aborted).any(|(r, x)| r.is_none() && !*x) {
             "fail awaiter-parked"
+        } else if g.imm_last.is_some() && g.imm_last != Some(val) {
+            "fail sync-observer-stale"
         } else if self.eff != EffKind::None && g.elog.last().map(|r| r.0) != Some(val) {
             "fail subscriber-stale"
         } else {
@@ -947,8 +1004,17 @@ impl Live {
                 "d" => EffKind::D,
                 "dm" => EffKind::DM,
                 "md" => EffKind::MD,
+                "dp" => EffKind::DP,
+                "dq" => EffKind::DQ,
                 _ => return BAD.into(),
             };
+            // a peeking dependent sees `None` while loading even if an older value is there: driven on first loads only
+            // (no initial value, no reloads: `set` / `refetch` / `mset` are refused below), handles with `by_ref()`
+            if matches!(eff, EffKind::DP | EffKind::DQ)
+                && (init.is_some() || kind.is_once() || kind.is_local() || w.len() >= 6)
+            {
+                return BAD.into();
+            }
             let fx = match w.get(6) {
                 None => None,
                 Some(s) => match parse_fx(vs.len(), s) {
@@ -987,6 +1053,23 @@ impl Live {
             && !self.kind.is_local()
             && self.fx.as_ref().map(|f| f.post.is_empty()).unwrap_or(true)
             && !self.used_mset;
+        if matches!(self.eff, EffKind::DP | EffKind::DQ) && matches!(w.as_slice(), ["set", ..] | ["refetch"] | ["mset", ..]) {
+            return BAD.into();
+        }
+        // pausing the derived's owner: plain configurations only
+        if matches!(w.as_slice(), ["pause"] | ["resume"])
+            && (self.eff != EffKind::None
+                || self.kind.is_once()
+                || self.kind.is_local()
+                || self.used_mset
+                || self.used_guards
+                || self.first_poll_d.is_none())
+        {
+            return BAD.into();
+        }
+        if self.used_pause && matches!(w.as_slice(), ["mset", ..] | ["attach", "h"] | ["hold"]) {
+            return BAD.into();
+        }
         if matches!(w.as_slice(), ["attach", "h"] | ["hold"]) && !guards_ok {
             return BAD.into();
         }
@@ -1012,7 +1095,18 @@ impl Live {
                     }
                     self.cur_src[i] = v;
                     self.srcs[i].set(v);
+                    self.missed_while_paused = self.paused;
                 }
+            }
+            ["pause"] => {
+                self.used_pause = true;
+                self.paused = true;
+                self.tags.insert("owner-paused");
+                self.owner.as_ref().unwrap().pause();
+            }
+            ["resume"] => {
+                self.paused = false;
+                self.owner.as_ref().unwrap().resume();
             }
             ["refetch"] => {
                 if self.in_flight() {
@@ -1021,6 +1115,7 @@ impl Live {
                     self.tags.insert("refetch");
                 }
                 dv.refetch();
+                self.missed_while_paused = self.paused;
             }
             ["mset", v] => {
                 let Some(v) = num(v) else { return BAD.into() };
@@ -1539,6 +1634,54 @@ fn gen_guards(g: &mut Gen, thorough: bool) {
     }
 }
 
+/// the derived's owner is paused and resumed around source writes, refetches, completions and polls (after a first
+/// load); every case ends with `resume`, a settle suffix, one more write with the owner running and a settle suffix:
+/// then the derived must be on the latest inputs
+fn gen_pause(g: &mut Gen, thorough: bool) {
+    let cfgs = ["cfg arc 0 - none", "cfg arena 0 - none", "cfg res 0 - none", "cfg res-arc 0 - none", "cfg arena-unsync 0 - none memo"];
+    let alphabet = ["set", "refetch", "complete last", "pause", "resume", "poll 0", "idle", "attach"];
+    let n = alphabet.len();
+    let len = if thorough { 5 } else { 4 };
+    for cfg in cfgs {
+        for code in 0..n.pow(len as u32) {
+            let mut c = code;
+            let mut l: Vec<String> = vec![cfg.to_string(), "idle".into(), "complete last".into(), "idle".into()];
+            let mut next_val = 1;
+            for _ in 0..len {
+                let a = alphabet[c % n];
+                c /= n;
+                if a == "set" {
+                    l.push(format!("set 0 {next_val}"));
+                    next_val += 1;
+                } else {
+                    l.push(a.to_string());
+                }
+            }
+            settle(&mut l, 2);
+            l.push("resume".into());
+            settle(&mut l, 2);
+            l.push("set 0 9".into());
+            settle(&mut l, 3);
+            g.case("pz-", &l);
+        }
+    }
+}
+
+/// dependents that PEEK at the value (`by_ref()` / `.await` polled once with `now_or_never()` and dropped) during a
+/// first load: they must run again when the load has finished
+fn gen_peek(g: &mut Gen, thorough: bool) {
+    let mut cfgs: Vec<String> = vec![];
+    for k in ["arc", "arena", "arc-unsync", "res", "res-arc", "arena~a", "res~ar"] {
+        for e in ["dp", "dq"] {
+            cfgs.push(format!("cfg {k} 0 - {e}"));
+        }
+    }
+    let alphabet = ["complete last", "poll 0", "poll 1", "poll 2", "idle", "attach"];
+    for len in 1..=(if thorough { 5 } else { 4 }) {
+        gen_exhaustive_cfgs(g, len, &alphabet, &cfgs, &format!("pk{len}-"));
+    }
+}
+
 /// every conversion between the `Arc…` and the arena handle of a resource / async derived (`From` / `into()`), and
 /// clones: reads, awaits, `refetch` and source writes THROUGH the converted handle
 fn gen_conversions(g: &mut Gen, thorough: bool) {
@@ -1817,6 +1960,8 @@ fn generate(seed: u64, n: usize, path: &str, tier: &str) -> std::io::Result<()> 
     gen_readers(&mut g, thorough);
     gen_guards(&mut g, thorough);
     gen_conversions(&mut g, thorough);
+    gen_pause(&mut g, thorough);
+    gen_peek(&mut g, thorough);
     if thorough {
         gen_exhaustive(&mut g, 4, &alphabet, &EFFS, "x4-");
         gen_exhaustive(&mut g, 5, &core, &EFFS, "y5-");
